@@ -8,22 +8,24 @@ import Driver.C01
 -/
 open TV TV.Driver
 
-/-- Model variants.  The first one is the code as it stands (all three committed repairs); a case
-    must replay under it for K=ok.  The others are the code before each repair: when only one of
-    those replays, the detail says which repaired defect is back. -/
+/-- Model variants.  The first one is the code as it stands (all committed repairs, including the
+    ready-queue repair of F-C08-1 / F-C03-2 in `Cfg.fixed`); a case must replay under it for K=ok.  The
+    others are the code before each repair (`Cfg.fixedRand` = random process repaired, ready queues not):
+    when only one of those replays, the detail says which repaired defect is back. -/
 def variants : List (String × Cfg × Bool × Bool × Bool) :=
   [ ("fixed:all", Cfg.fixed, true, true, true),
-    ("fixed:rand+leak+fin", Cfg.fixed, true, true, false),      -- the tree before the repair of F-C04-1
+    ("fixed:rand+leak+fin+writer", Cfg.fixedRand, true, true, true),  -- the tree before the repair of F-C08-1 / F-C03-2
+    ("fixed:rand+leak+fin", Cfg.fixedRand, true, true, false),  -- the tree before the repair of F-C04-1
     ("faithful", Cfg.faithful, false, false, false),
-    ("fixed:rand", Cfg.fixed, false, false, false),
+    ("fixed:rand", Cfg.fixedRand, false, false, false),
     ("fixed:leak", Cfg.faithful, true, false, false),
     ("fixed:fin", Cfg.faithful, false, true, false),
-    ("fixed:rand+leak", Cfg.fixed, true, false, false),
-    ("fixed:rand+fin", Cfg.fixed, false, true, false),
+    ("fixed:rand+leak", Cfg.fixedRand, true, false, false),
+    ("fixed:rand+fin", Cfg.fixedRand, false, true, false),
     ("fixed:leak+fin", Cfg.faithful, true, true, false),
     ("fixed:writer", Cfg.faithful, false, false, true),
-    ("fixed:rand+leak+writer", Cfg.fixed, true, false, true),
-    ("fixed:rand+fin+writer", Cfg.fixed, false, true, true),
+    ("fixed:rand+leak+writer", Cfg.fixedRand, true, false, true),
+    ("fixed:rand+fin+writer", Cfg.fixedRand, false, true, true),
     ("fixed:leak+fin+writer", Cfg.faithful, true, true, true) ]
 
 def splitCases (lines : List String) : List (List String) :=
